@@ -69,20 +69,24 @@ def c09(F, R, tier):
 
 @prop("C11",
       technique="static: symbolic evaluation of the extracted printer tables on operator trees, re-read by a model of the extracted PEG choice order and Pratt table; Display/FromStr table agreement",
-      explanation="Decides (PRINT-PARSE) for PreExp: for every parent/child operator pair and side (and every grandchild chain whose pairs pass) the text produced by the printer functions, evaluated from their typed HIR on symbolic trees, is re-read by the extracted grammar literals (ordered choice) and the extracted Pratt table into a tree equal to the original modulo real/Boolean associativity identities; (T-PREC/T-ASSOC) precedence() is order-isomorphic to the Pratt levels and is_left_associative() agrees with the table; (S-TOKENS) for every fieldless enum with both Display and FromStr, from_str(display(v)) = v, and displayed operator/comparison tokens are selected by the grammar rule that maps back to the same variant. NOT decided: rendering of iterations, blocks, graphs, declarations beyond token agreement; textual idempotence of whole programs.",
+      explanation="Decides (PRINT-PARSE) for PreExp: for every parent/child operator pair and side (and every grandchild chain whose pairs pass) the text produced by the printer functions, evaluated from their typed HIR on symbolic trees, is re-read by the extracted grammar literals (ordered choice) and the extracted Pratt table into a tree equal to the original modulo real/Boolean associativity identities; (T-PREC/T-ASSOC) precedence() is order-isomorphic to the Pratt levels and is_left_associative() agrees with the table; (S-TOKENS) for every fieldless enum with both Display and FromStr, from_str(display(v)) = v, and displayed operator/comparison tokens are selected by the grammar rule that maps back to the same variant; (OBJ-HEADER) the objective line the PreObjective printer writes for each OptimizationType is a sentence of an alternative of the grammar rule `objective` (keyword, body or no body) whose keyword parses back to the same variant. NOT decided: rendering of iterations, blocks, graphs, declarations beyond token agreement; textual idempotence of whole programs.",
       assumptions=["pest 2.9 Pratt semantics as read from its source"])
 def c11(F, R, tier):
     import c11 as mod
+    import objhdr
     mod.check(F, R, get_grammar())
+    objhdr.check(F, R, get_grammar(), "C11")
 
 
 @prop("C12",
       technique="static: symbolic evaluation of the extracted Exp printer on operator trees re-read by the extracted grammar/Pratt model; sign/abs pairing rule; float-rendering guard rule; generated-name templates vs grammar",
-      explanation="Decides (PRINT-PARSE) for the compiled-model printer Exp::to_string_with_precedence/Display/logic_operand_to_string over all parent/child operator pairs incl. abs/min/max blocks and all grandchild chains whose pairs pass; (SIGN-SPLIT) every printer that renders v.abs() chooses the sign with an exact test (a tolerant float_lt loses the sign of tiny negatives); (NUM-SPELL) every f64 rendered by Display for Exp / VariableType is guarded by an infinity test or spelled Infinity/MinusInfinity; (G-NAMES) every compiler-generated name template ($abs_n, $max_n_select_i, name__n, ...) instantiates to a string derivable from simple_variable/compound_variable with underscore_literal fragments. NOT decided: textual idempotence of the whole linear-model rendering; finiteness of linear-model numbers (that is C08).",
+      explanation="Decides (PRINT-PARSE) for the compiled-model printer Exp::to_string_with_precedence/Display/logic_operand_to_string over all parent/child operator pairs incl. abs/min/max blocks and all grandchild chains whose pairs pass; (SIGN-SPLIT) every printer that renders v.abs() chooses the sign with an exact test (a tolerant float_lt loses the sign of tiny negatives); (NUM-SPELL) every f64 rendered by Display for Exp / VariableType is guarded by an infinity test or spelled Infinity/MinusInfinity; (G-NAMES) every compiler-generated name template ($abs_n, $max_n_select_i, name__n, ...) instantiates to a string derivable from simple_variable/compound_variable with underscore_literal fragments; (OBJ-HEADER) the objective line written by Display for Objective and for LinearModel for each OptimizationType is a sentence of an alternative of the grammar rule `objective`. NOT decided: textual idempotence of the whole linear-model rendering; finiteness of linear-model numbers (that is C08).",
       assumptions=["pest 2.9 Pratt semantics as read from its source", "Rust's default f64 Display prints non-finite values as inf/-inf/NaN"])
 def c12(F, R, tier):
     import c12 as mod
+    import objhdr
     mod.check(F, R, get_grammar())
+    objhdr.check(F, R, get_grammar(), "C12")
 
 
 @prop("C15",
